@@ -490,7 +490,12 @@ pub fn exec(world: &mut World, xs: &mut St, code: i64, p: &[i64]) -> Out {
             }
             (5, 1) => {
                 let n = p[0].max(0) as usize;
-                let l: Vec<Entity> = world.entities().create_iter().take(n).collect();
+                // every third entity is created directly while the iterator is alive (n atomic creations either way)
+                let ents = world.entities();
+                let mut it = ents.create_iter();
+                let l: Vec<Entity> = (0..n).map(|k| if k % 3 == 1 { ents.create() } else { it.next().unwrap() }).collect();
+                drop(it);
+                drop(ents);
                 xs.hs.extend(l.iter().copied());
                 enc_ents(1, &l)
             }
